@@ -476,6 +476,21 @@ class Evaluator:
         self.resolve = resolve
         self.depth = 0
         self.calls: List[str] = []
+        # (function name, parameter, period) for every `p = remainder(p, period)`-style pre-reduction of a parameter:
+        # the fold treats it as the identity and the caller must show the folded table is periodic with that period
+        self.reductions: List[Tuple[str, str, "EP"]] = []
+
+    def _reduction(self, stmt: ast.stmt, env) -> Optional[Tuple[str, "EP"]]:
+        """``p = math.remainder(p, P)`` / ``math.fmod`` / ``np.mod`` / ``np.remainder`` / ``p % P`` / ``p %= P``"""
+        if isinstance(stmt, ast.AugAssign) and isinstance(stmt.op, ast.Mod) and isinstance(stmt.target, ast.Name):
+            return stmt.target.id, self.ev(stmt.value, env)
+        if isinstance(stmt, ast.Assign) and len(stmt.targets) == 1 and isinstance(stmt.targets[0], ast.Name):
+            name, v = stmt.targets[0].id, stmt.value
+            if isinstance(v, ast.BinOp) and isinstance(v.op, ast.Mod) and isinstance(v.left, ast.Name) and v.left.id == name:
+                return name, self.ev(v.right, env)
+            if isinstance(v, ast.Call) and (dotted(v.func) or "").split(".")[-1] in ("remainder", "fmod", "mod") and len(v.args) == 2 and isinstance(v.args[0], ast.Name) and v.args[0].id == name:
+                return name, self.ev(v.args[1], env)
+        return None
 
     def run(self, func: ast.AST, args: Sequence[Value]) -> Value:
         a = func.args
@@ -490,6 +505,10 @@ class Evaluator:
             raise Undecided("factory call chain too deep")
         try:
             for stmt in strip_docstring(func.body):
+                if isinstance(stmt, (ast.Assign, ast.AugAssign)) and (stmt.targets[0].id if isinstance(stmt, ast.Assign) and len(stmt.targets) == 1 and isinstance(stmt.targets[0], ast.Name) else getattr(getattr(stmt, "target", None), "id", None)) in names and self._reduction(stmt, env) is not None:
+                    name, period = self._reduction(stmt, env)
+                    self.reductions.append((func.name, name, period))
+                    continue
                 if isinstance(stmt, ast.Assign) and len(stmt.targets) == 1 and isinstance(stmt.targets[0], ast.Name):
                     env[stmt.targets[0].id] = self.ev(stmt.value, env)
                 elif isinstance(stmt, ast.AnnAssign) and isinstance(stmt.target, ast.Name) and stmt.value is not None:
@@ -497,6 +516,10 @@ class Evaluator:
                 elif isinstance(stmt, ast.Return) and stmt.value is not None:
                     return self.ev(stmt.value, env)
                 elif isinstance(stmt, (ast.Pass,)) or (isinstance(stmt, ast.Expr) and isinstance(stmt.value, ast.Constant)):
+                    continue
+                elif isinstance(stmt, ast.If) and "isinstance" in norm(stmt.test) and len(stmt.body) == 1 and self._reduction(stmt.body[0], env) is not None and all(isinstance(o, ast.Assign) and isinstance(o.value, ast.Name) and norm(o.targets[0]) == o.value.id for o in stmt.orelse):
+                    name, period = self._reduction(stmt.body[0], env)
+                    self.reductions.append((func.name, name, period))
                     continue
                 else:
                     raise Undecided(f"statement outside the closed-form fragment in {func.name}: {short(stmt, 80)}")
